@@ -329,15 +329,21 @@ pub fn header_palette() -> &'static Vec<MHeader> {
             ..h()
         }); // 29
             // headers that consist of ONE registered extension parameter only (CounterSignature0, kid
-    // context, x5bag, x5chain, x5t, x5u, CUPH nonce): nothing but that parameter makes them
-    // non-empty
-    for l in [9i64, 10, 32, 33, 34, 35, 256] {
-        v.push(MHeader { rest: vec![(MLabel::Int(l), MValue::Bytes(vec![1, 2, 3]))], ..h() });
-    }
-    v.push(MHeader { rest: vec![(MLabel::Int(10), MValue::Bytes(vec![4, 5, 6]))], ..h() });
-    // pairs that differ only INSIDE a structured extra-parameter value of the same shape
-            // (an x5chain-like array of one certificate; a one-entry map): anything that summarises a
-            // header by its shape would conflate them
+            // context, x5bag, x5chain, x5t, x5u, CUPH nonce): nothing but that parameter makes them
+            // non-empty
+        for l in [9i64, 10, 32, 33, 34, 35, 256] {
+            v.push(MHeader {
+                rest: vec![(MLabel::Int(l), MValue::Bytes(vec![1, 2, 3]))],
+                ..h()
+            });
+        }
+        v.push(MHeader {
+            rest: vec![(MLabel::Int(10), MValue::Bytes(vec![4, 5, 6]))],
+            ..h()
+        });
+        // pairs that differ only INSIDE a structured extra-parameter value of the same shape
+        // (an x5chain-like array of one certificate; a one-entry map): anything that summarises a
+        // header by its shape would conflate them
         v.push(MHeader {
             rest: vec![(
                 MLabel::Int(33),
@@ -401,9 +407,35 @@ pub fn header_palette() -> &'static Vec<MHeader> {
 /// Number of expensive entries at the end of the header palette.
 pub const BIG_HEADERS: usize = 2;
 
+thread_local! {
+    /// the header a generated history keeps coming back to (set per run by the generators)
+    static FAVOURITE_HEADER: std::cell::Cell<Option<usize>> = const { std::cell::Cell::new(None) };
+}
+
+/// Half of the histories have a favourite non-empty header that a quarter of their header draws
+/// return: layers of one message (body and signers, body and recipients, successive calls)
+/// often carry the same header, and only then can a confusion between them show.
+pub fn draw_favourite_header(rng: &mut Rng) {
+    let n = header_palette().len();
+    let f = if rng.bool() {
+        Some(1 + rng.below(n - BIG_HEADERS - 1))
+    } else {
+        None
+    };
+    FAVOURITE_HEADER.with(|c| c.set(f));
+}
+pub fn clear_favourite_header() {
+    FAVOURITE_HEADER.with(|c| c.set(None));
+}
+
 /// Weighted header index: the empty header and the simple ones most often.
 pub fn pick_header_idx(rng: &mut Rng) -> usize {
     let n = header_palette().len();
+    if let Some(f) = FAVOURITE_HEADER.with(|c| c.get()) {
+        if rng.chance(1, 4) {
+            return f;
+        }
+    }
     if rng.chance(1, 8) {
         0
     } else if rng.chance(1, 100) {
